@@ -835,6 +835,9 @@ class CSSParser:
                 selectors.append(sel)
                 del relations[:]
             else:
+                if not sel.tag and not is_pseudo:
+                    # Implied `*`
+                    sel.tag = ct.SelectorTag('*', None)
                 sel.relations.extend(relations)
                 sel.rel_type = combinator
                 del relations[:]
